@@ -183,8 +183,9 @@ def _reader_ops_py(fn):
                 nm = unparse(t.elts[0]) if isinstance(t, ast.Tuple) else unparse(t)
                 ops.append(("varint", nm, inloop))
             elif isinstance(s, ast.If):
-                # `if x_len >= 0: x = buffer[pos:pos+x_len]; pos += x_len else: None`
+                # `if x_len >= 0: x = buffer[pos:pos+x_len]; pos += x_len else: None` -- whichever arm is written first
                 visit(s.body, inloop)
+                visit(s.orelse, inloop)
             elif isinstance(s, ast.While) or isinstance(s, ast.For):
                 ops.append(("loop", unparse(s.test if isinstance(s, ast.While) else s.iter)[:30], inloop))
                 visit(s.body, True)
@@ -207,6 +208,7 @@ def _reader_ops_pyx(fn):
                 ops.append(("varint", unparse(a.args[0]) if isinstance(a, ast.Call) else unparse(a), inloop))
             elif isinstance(s, ast.If):
                 visit(s.body, inloop)
+                visit(s.orelse, inloop)
             elif isinstance(s, (ast.While, ast.For)):
                 ops.append(("loop", unparse(s.test if isinstance(s, ast.While) else s.iter)[:30], inloop))
                 visit(s.body, True)
@@ -256,7 +258,7 @@ def _writer_shape_py(fn):
                 visit(s.orelse)
                 orelse = out[a:]
                 del out[a:]
-                out.append("(" + "".join(body) + "|" + "".join(orelse) + ")")
+                out.append("(" + "|".join(sorted(["".join(body), "".join(orelse)])) + ")")   # arms in canonical order: which arm is the `if` is immaterial
             elif isinstance(s, ast.For):
                 out.append("[")
                 visit(s.body)
@@ -290,7 +292,7 @@ def _writer_shape_pyx(fn):
                 orelse = out[a:]
                 del out[a:]
                 if body or orelse:
-                    out.append("(" + "".join(body) + "|" + "".join(orelse) + ")")
+                    out.append("(" + "|".join(sorted(["".join(body), "".join(orelse)])) + ")")   # arms in canonical order: which arm is the `if` is immaterial
             elif isinstance(s, ast.For):
                 out.append("[")
                 visit(s.body)
@@ -313,7 +315,7 @@ def rule_record_grammar(ctx, px):
     sh = _shape(_reader_ops_pyx(cr.node))
     ob(ctx, R, cr, cr.node.lineno, "pyx-reader", sh == want_reader, f"compiled reader's element sequence is {sh}, expected {want_reader}")
     # writers: body (after the length varint): A V V (VR|N) (VR|N) V [ V R (VR|N) ]
-    want_py = "AVV(VR|N)(VR|N)V[VR(VR|N)]"
+    want_py = "AVV(N|VR)(N|VR)V[VR(N|VR)]"
     pw = ctx.fn(f"{PYD}._DefaultRecordBatchBuilderPy.append")
     sh = _writer_shape_py(pw.node)
     # the python writer emits type checks first (ifs without wire ops) and the length varint + body copy at the end
@@ -823,20 +825,110 @@ def rule_xerial(ctx):
     ctx.ob(R, fi, loops[0], okb, f"block scan of snappy_decode: bound {bound} (coefficient of len(payload), constant) over a buffer starting at payload offset {base}, "
                                  f"cursor starting at {start}: the scan must begin at offset {hdr} and end exactly at the end of the buffer it indexes "
                                  "(a shorter bound silently drops the final block)", text="scan-covers-buffer")
-    # cursor movement
-    body_txt = [unparse(x) for x in loop.body]
-    adv4 = any(x in (f"{cur} += 4", f"{cur} = {cur} + 4") for x in body_txt)
-    endd = [x for x in loop.body if isinstance(x, ast.Assign) and isinstance(x.value, ast.BinOp) and isinstance(x.value.op, ast.Add)
-            and {unparse(x.value.left), unparse(x.value.right)} == {cur, "block_size"}]
-    okm = adv4 and len(endd) == 1 and any(x == f"{cur} = {unparse(endd[0].targets[0])}" for x in body_txt) \
-        and any(f"[{cur}:{unparse(endd[0].targets[0])}]" in x and "decompress_raw" in x for x in body_txt) \
-        and any("block_size = struct.unpack_from('!i'" in x for x in body_txt)
+    # cursor movement (locals of the loop body resolved through their single definition in the loop)
+    def in_loop_def(name):
+        ds = [n for n in ast.walk(loop) if isinstance(n, ast.Assign) and len(n.targets) == 1 and isinstance(n.targets[0], ast.Name) and n.targets[0].id == name]
+        return ds[0].value if len(ds) == 1 else None
+
+    def res(e):
+        if isinstance(e, ast.Name) and e.id != cur:
+            d = in_loop_def(e.id)
+            if d is not None:
+                return d
+        return e
+    adv4 = any(isinstance(n, ast.AugAssign) and unparse(n.target) == cur and isinstance(n.op, ast.Add) and unparse(n.value) == "4" for n in ast.walk(loop)) \
+        or any(isinstance(n, ast.Assign) and unparse(n.targets[0]) == cur and unparse(n.value) in (f"{cur} + 4", f"4 + {cur}") for n in ast.walk(loop))
+    bs = in_loop_def("block_size")
+    okbs = bs is not None and isinstance(bs, ast.Subscript) and unparse(bs.slice) == "0" and isinstance(bs.value, ast.Call) and unparse(bs.value.func) == "struct.unpack_from" \
+        and bs.value.args and isinstance(bs.value.args[0], ast.Constant) and bs.value.args[0].value in ("!i", ">i")
+    decs = [n for n in ast.walk(loop) if isinstance(n, ast.Call) and unparse(n.func).endswith("decompress_raw") and n.args]
+    okd = False
+    endv = None
+    if len(decs) == 1:
+        sl = res(decs[0].args[0])
+        if isinstance(sl, ast.Subscript) and isinstance(sl.slice, ast.Slice) and sl.slice.lower is not None and sl.slice.upper is not None and unparse(sl.slice.lower) == cur:
+            up = res(sl.slice.upper)
+            okd = isinstance(up, ast.BinOp) and isinstance(up.op, ast.Add) and {unparse(up.left), unparse(up.right)} == {cur, "block_size"}
+            endv = unparse(sl.slice.upper)
+    mv = [n for n in ast.walk(loop) if isinstance(n, ast.Assign) and unparse(n.targets[0]) == cur and endv is not None
+          and (unparse(n.value) == endv or unparse(res(n.value)) in (f"{cur} + block_size", f"block_size + {cur}"))]
+    okm = adv4 and okbs and okd and len(mv) == 1
     ctx.ob(R, fi, loops[0], okm, "snappy_decode does not read a big-endian int32 block length, skip it, decompress [cursor:cursor+length] and continue after it", text="block-step")
     fe = ctx.fn("aiokafka.codec.snappy_encode")
     se = unparse(fe.node)
     oke = "struct.pack('!i', block_size)" in se and "block_size = len(block)" in se and "out.write(block)" in se \
         and "zip(_XERIAL_V1_FORMAT, _XERIAL_V1_HEADER" in se and "range(0, len(payload), xerial_blocksize)" in se
     ctx.ob(R, fe, fe.node, oke, "snappy_encode does not write header fields, then per chunk the int32 length of the compressed block and the block", text="encode-framing")
+
+
+
+# ---- size accounting agrees with what the writer emits ----------------------------------------------------------------------------
+def _resolve_local(fn, e, depth=0):
+    """Expression with single-definition locals of `fn` replaced by their defining expression (text)."""
+    if depth > 4:
+        return unparse(e)
+    if isinstance(e, ast.Name):
+        ds = [n for n in ast.walk(fn) if isinstance(n, ast.Assign) and len(n.targets) == 1 and isinstance(n.targets[0], ast.Name) and n.targets[0].id == e.id]
+        if len(ds) == 1:
+            return _resolve_local(fn, ds[0].value, depth + 1)
+    return unparse(e)
+
+
+def _measured_writer(fn):
+    """What the python writer measures and writes, in order: for every `encode_varint(len_func(X))` immediately followed by `write(Y)`
+    the pair (resolved X, resolved Y)."""
+    out = []
+    stmts = [n for n in ast.walk(fn) if isinstance(n, (ast.For, ast.If, ast.FunctionDef))]
+    for blk in [fn] + stmts:
+        for field in ("body", "orelse"):
+            lst = getattr(blk, field, None) or []
+            for a, b in zip(lst, lst[1:]):
+                if isinstance(a, ast.Expr) and isinstance(a.value, ast.Call) and unparse(a.value.func) == "encode_varint" and a.value.args \
+                        and isinstance(a.value.args[0], ast.Call) and unparse(a.value.args[0].func) in ("len_func", "len") \
+                        and isinstance(b, ast.Expr) and isinstance(b.value, ast.Call) and unparse(b.value.func) == "write" and b.value.args:
+                    out.append((a.lineno, _resolve_local(fn, a.value.args[0].args[0]), _resolve_local(fn, b.value.args[0])))
+    return [(x, y) for _l, x, y in sorted(out)]
+
+
+def _measured_sizer(fn):
+    """What size_of measures, in order: for every `size += size_of_varint(L) + L` the resolved expression whose len() L is."""
+    out = []
+    for n in ast.walk(fn):
+        if isinstance(n, ast.AugAssign) and isinstance(n.op, ast.Add) and isinstance(n.value, ast.BinOp) and isinstance(n.value.op, ast.Add):
+            l, r = n.value.left, n.value.right
+            if isinstance(l, ast.Call) and unparse(l.func) == "size_of_varint" and l.args and unparse(l.args[0]) == unparse(r):
+                txt = _resolve_local(fn, r)
+                m = re.fullmatch(r"len\((.*)\)", txt)
+                out.append((n.lineno, m.group(1) if m else "?" + txt))
+    return [x for _l, x in sorted(out)]
+
+
+def rule_size_accounting(ctx, px):
+    R = "size-accounting"
+    ctx.rep.rule(R, "the size the builders predict for a record (size_of, behind size_in_bytes / estimate_size_in_bytes, which decide whether a "
+                    "record still fits its batch) is computed from the same byte strings the writer emits: element by element, every "
+                    "`size_of_varint(L) + L` term measures len() of exactly the expression whose length varint and bytes append() writes "
+                    "(in particular the UTF-8 encoding of a header key, not its character count); the compiled sizer measures the encoded "
+                    "header key too")
+    pw = ctx.fn(f"{PYD}._DefaultRecordBatchBuilderPy.append")
+    ps = ctx.fn(f"{PYD}._DefaultRecordBatchBuilderPy.size_of")
+    w = _measured_writer(pw.node)
+    z = _measured_sizer(ps.node)
+    ctx.anchor(len(w) == 4, f"measured runs in the python writer: {w}")
+    ctx.ob(R, pw, pw.node, all(x == y for x, y in w), f"the python writer writes a run whose length varint was taken of another expression: {w}", text="writer-measures-what-it-writes")
+    ctx.ob(R, ps, ps.node, z == [x for x, _y in w], f"size_of measures {z}, the writer emits {[x for x, _y in w]}: predicted and written sizes differ "
+                                                    "(a batch can outgrow the size it was admitted for)", text="py-sizer-matches-writer")
+    cs = px.fn(f"{DEF}.DefaultRecordBatchBuilder._size_of_header") if f"{DEF}.DefaultRecordBatchBuilder._size_of_header" in px.funcs else None
+    cands = [q for q in px.funcs if q.startswith(f"{DEF}.") and "size" in q.rsplit(".", 1)[-1].lower()]
+    hk = []
+    for q in cands:
+        f = px.funcs[q]
+        for n in ast.walk(f.node):
+            if isinstance(n, ast.Call) and unparse(n.func) == "_bytelike_len" and n.args and "h_key" in unparse(n.args[0]):
+                hk.append((q, f, unparse(n.args[0])))
+    ctx.anchor(len(hk) >= 1, f"header-key measurement in the compiled sizer (searched {cands})")
+    for q, f, txt in hk:
+        ob(ctx, R, f, f.node.lineno, "pyx-sizer-header-key", txt == "h_key.encode('utf-8')", f"the compiled sizer measures `{txt}` for a header key, the writer emits h_key.encode('utf-8')")
 
 
 def run(ctx):
@@ -855,6 +947,7 @@ def run(ctx):
     rule_next_offset(ctx, px)
     rule_mask_compare(ctx, px)
     rule_xerial(ctx)
+    rule_size_accounting(ctx, px)
     rep.nd("value-level round-trip for all record sequences (varint arithmetic, timestamps beyond int32 deltas, compression codecs)")
     rep.nd("byte-identical output of the two builders (they differ by design at the batch-size boundary and in the compression fallback)")
-    rep.nd("size accounting formulas (size_of / _size_of_body) term by term")
+    rep.nd("the fixed parts of size accounting (record overhead constants, estimate slack)")
